@@ -360,8 +360,14 @@ func C26(e *simkern.Env) {
 			t := sim.Current()
 			cur[t] = rq
 			rq.body = gatesw.NewBody([]byte(body), func() { leaveGate(rq) })
-			resp := gatesw.Serve(h, http.MethodPost, prefix+vgirpc.IntrospectEndpoint, rq.body, cl,
-				map[string]string{"Content-Type": "application/json", "X-Sim-Caller": c.name})
+			hdr := map[string]string{"Content-Type": "application/json", "X-Sim-Caller": c.name}
+			if tp.Bool(1, 3) {
+				// this caller drains its answer slowly: other requests are
+				// answered while this response is being written
+				hdr[gatesw.SlowPeerHeader] = "1"
+				sim.Fault("slow-peer")
+			}
+			resp := gatesw.Serve(h, http.MethodPost, prefix+vgirpc.IntrospectEndpoint, rq.body, cl, hdr)
 			leaveGate(rq)
 			delete(cur, t)
 			rq.status = resp.Status
@@ -527,7 +533,7 @@ func init() {
 		Stub:  []string{"HTTP transport (direct ServeHTTP call, httptest recorder, body that reports its first read)", "authenticator (identity header)", "token resolver (fault plan)", "capturing slog handler"},
 		Quick: 1600, Thorough: 96000,
 		Warm:       warmIntrospect,
-		FaultKinds: []string{"clock-advance", "resolver-unresolved", "resolver-unavailable", "resolver-error"},
+		FaultKinds: []string{"clock-advance", "resolver-unresolved", "resolver-unavailable", "resolver-error", "slow-peer"},
 		Assumptions: []string{
 			"window notion: the statement says 'per caller per window' and the configuration field is a per-second rate served by a fixed-window limiter whose phase is not specified; the oracle demands only that SOME placement of disjoint one-second windows exists in which every allowlisted principal has at most `limit` admitted (non-429) requests per window, each principal judged on its own (this implies at most 2×limit in any one-second sliding interval, which is all the documentation promises across a boundary)",
 			"the clock does not move while a request is between arrival and its first body read / resolver call / response, so the instant of the limiter's decision is the request's arrival instant",
